@@ -278,6 +278,13 @@ def extract_fn(repo, spec):
         raise vf.Undecided("%s: body identity check failed" % spec["name"])
     line_in_repo = text.count("\n", 0, start) + 1
     hdr = re.sub(r"\s+", " ", header) if spec.get("keep_trait") else inherent_header(header)
+    if spec.get("header"):
+        # stated rewrite of a trait impl header whose generics cannot stay on an inherent impl
+        hdr = spec["header"]
+    for a_, b_ in spec.get("sig_replace", []):
+        if sig2.count(a_) != 1:
+            raise vf.Undecided("%s: signature rewrite anchor %r not found once" % (spec["name"], a_))
+        sig2 = sig2.replace(a_, b_)
     return {"name": spec["name"], "header": hdr, "impl_items": spec.get("impl_items", ""), "orig_header": re.sub(r"\s+", " ", header),
             "sig": sig2, "spec": spec.get("spec", ""), "body": body2, "orig_body": body,
             "trusted": spec.get("trusted", False), "keep_trait": spec.get("keep_trait", False), "omit_body": spec.get("omit_body", False), "props": spec.get("props", []),
